@@ -51,6 +51,7 @@ pub fn run(a: &Args) {
         runs.push((3, 0)); runs.push((3, 1)); runs.push((3, 2)); runs.push((3, 3));  // signals at each point
         runs.push((4, 0));                                                   // StopProcess fail point
         for _ in 0..2 { runs.push((7, rng.range(1, total_calls.max(1) as u64) as usize)); }   // the destination PANICS at call k: the request unwinds
+        if target.tids.len() >= 2 && !zombie_leader { runs.push((8, 0)); }    // one thread (not the first) is held by another tracer: its attach is refused (EPERM)
         for (mode, k) in runs {
             let mut w = MinidumpWriter::new(target.pid, target.pid);
             if zombie_leader { w.stop_timeout(std::time::Duration::from_millis(20)); }
@@ -60,6 +61,9 @@ pub fn run(a: &Args) {
             if mode == 2 { w.set_app_memory(vec![AppMemory { ptr: 0x10, length: 64 }]); }
             let mut client = FailSpotName::testing_client();
             if mode == 4 { client.set_enabled(FailSpotName::StopProcess, true); }
+            // mode 8: the youngest scenario thread that can be traced is taken by a foreign tracer (this process, before the dump)
+            let held: Option<i32> = if mode == 8 { target.tids.iter().enumerate().rev().find(|(i, _)| scen.threads[*i].kind == Kind::Block || scen.threads[*i].kind == Kind::Spin).map(|(_, t)| *t) } else { None };
+            if let Some(t) = held { unsafe { libc::ptrace(libc::PTRACE_SEIZE, t, 0, 0); libc::ptrace(libc::PTRACE_INTERRUPT, t, 0, 0); let mut st = 0; libc::waitpid(t, &mut st, libc::__WALL); } }
             // signals: realtime signals to the scenario threads before the dump and at the chosen hook point
             let recv: Vec<(usize, i32)> = target.tids.iter().enumerate().filter(|(i, _)| scen.threads[*i].kind == Kind::Block || scen.threads[*i].kind == Kind::Spin).map(|(i, t)| (i, *t)).collect();
             let before: Vec<u64> = recv.iter().map(|(i, _)| target.slot(64 + *i)).collect();
@@ -73,15 +77,19 @@ pub fn run(a: &Args) {
             let (res, world, _) = with_hooks(target.pid, target.pid, true, Some(hook), || quiet_catch(std::panic::AssertUnwindSafe(|| w.dump(&mut dest).map(|_| ()).map_err(|e| format!("{e:?}")))));
             client.set_enabled(FailSpotName::StopProcess, false); drop(client);
             let outcome = match &res { Ok(Ok(())) => 2u64, Ok(Err(_)) => 1, Err(_) => 1 };
+            // the foreign tracer lets its thread go only after it has looked at the others: what the WRITER attached must be free by now
+            let leaked: Vec<(i32, char, i32)> = if held.is_some() { std::thread::sleep(std::time::Duration::from_millis(20)); target.thread_states().into_iter().filter(|(t, s, tr)| Some(*t) != held && (*tr != 0 || *s == 't' || *s == 'T')).collect() } else { vec![] };
+            if let Some(t) = held { unsafe { libc::ptrace(libc::PTRACE_DETACH, t, 0, 0); } }
+            if !leaked.is_empty() { let mut l = Line::new("const"); l.u(8).u(0); out.case(l.s(), &format!("!threads the writer attached are still traced or stopped after the request (one other thread was held by a foreign tracer): {leaked:?}"), true); }
             let (traced, stopped, detail) = observe(&target);
             // model input: attach kinds from the scenario; the run ends by completing or with an error after suspension
             let mut line = Line::new("c03_final");
             let wt = world.map(|w| w.threads).unwrap_or_default();
             line.z(wt.len());
-            for t in &wt { let idx = target.tids.iter().position(|x| *x == t.tid); let kind = match idx.map(|i| scen.threads[i].kind) { Some(Kind::NullSp) => 3, _ => if t.state == 'Z' { 1 } else { 0 } }; line.u(kind).u(0); }
+            for t in &wt { let idx = target.tids.iter().position(|x| *x == t.tid); let kind = match idx.map(|i| scen.threads[i].kind) { Some(Kind::NullSp) => 3, _ => if t.state == 'Z' || Some(t.tid) == held { 1 } else { 0 } }; line.u(kind).u(0); }
             line.u(outcome).u(3);
             let mut r = Line::bare(); r.z(traced).b(stopped > 0).u(0);
-            out.count(&format!("run.{}", ["clean", "destination_failure", "unreadable_app_memory", "signals", "stop_failpoint", "", "", "destination_panics"][mode as usize]));
+            out.count(&format!("run.{}", ["clean", "destination_failure", "unreadable_app_memory", "signals", "stop_failpoint", "", "", "destination_panics", "thread_held_by_foreign_tracer"][mode as usize]));
             if traced != 0 || stopped != 0 {
                 out.notes.push(format!("not released after mode {mode} k {k}: {detail}"));
                 // this process is the tracer of whatever was left attached: release it so that the next runs on this target start clean
